@@ -52,3 +52,33 @@ Example ex_history :
   let r := run (fun i => negb (Nat.eqb i 0)) start ops in
   ~ handling (snd r) /\ length (flat_map (fun e => match e with EvReq q => [q] | _ => [] end) (fst r)) = 2.
 Proof. vm_compute. split; [intros H; discriminate|reflexivity]. Qed.
+
+(** ---- link to C19: the incremental channel computes C19's [serve_stream] ---- *)
+From C19 Require Import Pipeline.
+From C18 Require Import Link.
+
+(** [obs] keeps the delivered requests and how the connection ended (400 / closed after the last
+    response / still open); [nodrop] = no line exceeded LineReceiver.MAX_LENGTH (such a connection is
+    closed without a response, which C19's parser does not model).  For every history of deliveries
+    and resource completions that ends with no request being handled, the requests the application saw
+    and the ending are exactly what C19's whole-stream parser computes from the concatenated bytes. *)
+Theorem every_history_agrees_with_whole_stream_parser : forall (resp : nat -> bool) (ops : list op),
+  ~ handling (snd (run resp start ops)) -> nodrop (run resp start ops) ->
+  obs (run resp start ops) = serve_stream true (bytes_of ops).
+Proof. exact history_is_serve_stream. Qed.
+Print Assumptions every_history_agrees_with_whole_stream_parser.
+
+(** hence C19's pipeline theorem for every segmentation and resource timing: if the bytes delivered are a
+    pipeline of well-formed keep-alive requests (RFC 9112 rendering, any bodies), the application receives
+    exactly those requests with exactly those bodies, whatever the cuts and whenever the resource answers *)
+Theorem wellformed_pipeline_parsed_exactly_under_every_history :
+  forall (resp : nat -> bool) (ops : list op) (qs : list wreq),
+  Forall wf_wreq qs -> forallb keeps_alive qs = true ->
+  bytes_of ops = flat_map render qs ->
+  ~ handling (snd (run resp start ops)) -> nodrop (run resp start ops) ->
+  obs (run resp start ops) = (map parsed qs, EWait).
+Proof.
+  intros resp ops qs Hw Hk Hb Hh Hnd.
+  rewrite (history_is_serve_stream resp ops Hh Hnd), Hb. apply pipeline_complete; assumption.
+Qed.
+Print Assumptions wellformed_pipeline_parsed_exactly_under_every_history.
